@@ -3,6 +3,8 @@ import os, subprocess, json
 
 CRATES = {
     "vh": dict(workspace="harness", package="vh", bin="vh", features=[], thorough_features=["extra_zoo"]),
+    "vabi": dict(workspace="harness", package="vabi", bin="va", features=[], thorough_features=["extra_zoo"]),
+    "vconc": dict(workspace="harness", package="vconc", bin="vc", features=[]),
 }
 
 BUILDS = {
@@ -111,6 +113,66 @@ PROPS = {
         required_counters=dict(quick=dict(write_fault_surfaced=10000, read_fault_surfaced=10000, write_chunking_independent=300, read_chunking_independent=300)),
         exhaustive_counter="write_fault_points",
         fresh_zoo=True,
+    ),
+    "C09": dict(
+        level="exploration",
+        rule="Scripted scenarios (40-60 random steps over 38 operation kinds of interface `Plain`: plain data by value / by reference, &str, slices, tuples, "
+             "Option, Result, &'static str, 7-argument mixed call, &dyn Fn, &mut dyn FnMut, Box<dyn Fn> (consumed and kept), returned closures, boxed trait "
+             "objects in both directions, borrowed trait objects, Result<Box<dyn Trait>>, boxed futures polled to completion, nested callbacks, Pin<&mut Self>, "
+             "panics with literal / formatted / String / non-string payloads and a panic raised in a caller-side callback; argument sizes straddling the 64 byte "
+             "inline buffer) are run once against the implementation directly (sequential model) and once through AbiConnection::from_boxed_trait. Compared: every "
+             "result line, the arguments the implementation recorded, and the creation/drop log of every tracked object (exactly one drop, no use after drop). "
+             "distinct_nontrivial = distinct (operation, result-size class).",
+        runs=dict(quick=[dict(build="release", crate="vabi", shards=4), dict(build="debug", crate="vabi", shards=4)],
+                  thorough=[dict(build="release", crate="vabi", shards=16), dict(build="debug", crate="vabi", shards=16)]),
+        required_counters=dict(quick=dict(results_equal=3000, argument_records_equal=3000, lifetime_logs_clean=100, tracked_objects=1000)),
+    ),
+    "C10": dict(
+        level="exploration",
+        rule="Interfaces generated from the abi-writable evolution families of the zoo (one exported trait per family version: echo(T)->T, take_ref(&T), "
+             "give()->T, echo_vec(Vec<T>), opt_res(Option<T>)->Result<T,String>). Every ordered pair (caller version i, implementation version j) is connected "
+             "with from_boxed_trait_for_test in its own child process; generated values are sent and returned; the argument the implementation records and the "
+             "value the caller receives are compared with the reference model's projection through version min(i,j). A hook event per reply checks that the "
+             "caller consumed exactly the reply's bytes. Plus a hand-written interface family for methods present on one side only and incompatible signatures. "
+             "distinct_nontrivial = distinct (family, i, j, method, value-class).",
+        runs=dict(quick=[dict(build="release", crate="vabi", shards=8), dict(build="debug", crate="vabi", shards=4)],
+                  thorough=[dict(build="release", crate="vabi", shards=16), dict(build="debug", crate="vabi", shards=16)]),
+        required_counters=dict(quick=dict(arguments_as_expected=500, returns_as_expected=500, cross_version_pairs=10, reply_hook_events=500, incompatible_signature_rejected=3, missing_method_panics_with_name=1)),
+        fresh_zoo=True,
+    ),
+    "C13": dict(
+        level="exploration",
+        rule="Schema trees (the harness' own mirror type converted to savefile::Schema): (a) EXHAUSTIVE enumeration of all trees with up to 3 (quick) / 4 (thorough) nodes "
+             "over 12 leaf kinds, 7 unary kinds, structs (two annotation variants) and enums (two width/repr variants); (b) random trees up to 60 nodes including trait, "
+             "closure and future nodes; (c) the real schemas of every type under test at every version. Each tree: write+read at format 2 (exact) and 1 (exact modulo "
+             "the method attributes only format 2 stores), read of format-0 bytes produced by an independent encoder (== tree minus layout annotations), "
+             "diff_schema(s,s)==None, and every single wire-relevant mutation at every data node (primitive kind, field/variant added/removed/reordered, variant name, "
+             "discriminant, discriminant width, array length, option/vector wrapping) must be reported in both directions. distinct_nontrivial = distinct trees.",
+        runs=dict(quick=[dict(build="release", shards=4)], thorough=[dict(build="release", shards=16), dict(build="debug", shards=8)]),
+        required_counters=dict(quick=dict(enumerated_trees_checked=1000, roundtrip_format2_ok=2000, roundtrip_format1_ok=2000, format0_read_ok=2000, mutation_detected=20000, real_schemas_checked=200)),
+        exhaustive_counter="enumerated_trees_checked",
+        fresh_zoo=True,
+    ),
+    "C15": dict(
+        level="exploration",
+        rule="Histories of verify_compatiblity runs in fresh temporary directories: unchanged interfaces (plain, &mut self / Pin<&mut Self> receivers with closures and "
+             "futures, #[async_trait], Send+Sync) run 2, 3 and 6 times; base -> compatible (+method, reordered) -> breaking (method removed, argument count, argument "
+             "type, return type) sequences; generated interface families (argument/return types evolving over versions) in order, repeated and revisited, and newest-first. "
+             "Each run's verdict is compared with the step label; recorded files must never change or disappear. distinct_nontrivial = distinct (history, step).",
+        runs=dict(quick=[dict(build="release", crate="vabi", shards=4)], thorough=[dict(build="release", crate="vabi", shards=8), dict(build="debug", crate="vabi", shards=8)]),
+        required_counters=dict(quick=dict(ledger_runs=100, compatible_revision_accepted=80, breaking_revision_rejected=8)),
+        fresh_zoo=True,
+    ),
+    "C16": dict(
+        level="exploration",
+        rule="Trials in child processes (fresh global caches): 2/4/16/64 threads released from a barrier race to create connections for an interface type that has never "
+             "been used in the process (24 generated interface types per process, each with its own closure-wrapper trait), then call through their own connection and "
+             "a shared one: plain calls, calls with a closure argument (the implementation creates a connection for it), boxed trait objects returned, borrowed trait "
+             "objects passed in, and an atomic ticket counter on the shared connection. The verif_hooks callback records the order in which threads pass the points inside "
+             "connection creation and injects seeded sleeps/yields between them. Oracles: every result equals the sequential model, tickets are exactly 0..n-1, no panic, "
+             "no deadlock (watchdog + gdb stack dump). distinct_nontrivial = distinct observed orderings of (thread, hook point) events.",
+        runs=dict(quick=[dict(build="release", crate="vconc", shards=6)], thorough=[dict(build="release", crate="vconc", shards=16)]),
+        required_counters=dict(quick=dict(trials=100, hook_events=20000, template_cache_misses=100, tickets_drawn=10000)),
     ),
     "C12": dict(
         level="exploration",
